@@ -156,6 +156,20 @@ Proof.
   replace (N =? 0)%nat with false by (symmetry; apply Nat.eqb_neq; lia). reflexivity.
 Qed.
 
+(* FER without a pH: (positive + negative + prolines) over the length *)
+Lemma count_P (l : list aa) : count_substr1 "P"%char (map aa_char l) = cnt (aa_eqb Pro) l.
+Proof. induction l as [|a l IH]; [reflexivity|]. cbn [map count_substr1 cnt]. rewrite IH. destruct a; reflexivity. Qed.
+
+Theorem FER_tie (sq : list aa) r : List.length sq = N -> lookup "self.len" r = VInt (Z.of_nat N) -> lookup "pH" r = VNone -> lookup "self.seq" r = VStr (map aa_char sq) ->
+  MiniPy.exec cprim1 0 g_FER r = frac (npos p + nneg p + cnt (aa_eqb Pro) sq).
+Proof.
+  intros Hsq Hl Hph Hs. unfold g_FER.
+  assert (T : truthy (MiniPy.eval cprim1 (ENe (EVar "pH") (EConst VNone)) r) = VBool false) by (cbn [MiniPy.eval]; rewrite Hph; reflexivity).
+  rewrite (exec_if_false _ _ _ _ T). apply quot_run; [exact Hl|].
+  apply eval_add_int; [apply eval_add_int; rewrite eval_call0; [apply call_pos | apply call_neg]|].
+  cbn [MiniPy.eval]. rewrite Hs. cbn [bad2 list_ascii_of_string]. now rewrite count_P.
+Qed.
+
 (* the fractions as rationals *)
 Lemma frac_value c : (1 <= N)%nat -> (Qred (inject_Z c / lenq) == c # Pos.of_nat N)%Q.
 Proof.
@@ -166,6 +180,7 @@ End Counts.
 Print Assumptions countNeut_tie.
 Print Assumptions NCPR_tie.
 Print Assumptions FCR_pH_tie.
+Print Assumptions FER_tie.
 
 (* ---------- the public getters (SequenceParameters) are exactly a return of the backend call with their own arguments ---------- *)
 Lemma fw_get_countPos : g_fw_get_countPos = SReturn (ECall "SeqObj.countPos"%string []). Proof. reflexivity. Qed.
